@@ -1,8 +1,24 @@
 (* C03 — property theorems. Only statements closed by `exact <lemma>`, Print Assumptions beneath,
-   and the non-vacuity / refutation examples. *)
+   and the non-vacuity / refutation examples. The functions are those of Model.v, which the
+   correspondence run (harness/cmd/hC03) compares with the real code on every check. *)
 From Coq Require Import List Bool Arith NArith ZArith.
 Import ListNotations.
-From C03 Require Import Model ProofsCodec.
+From C03 Require Import Model ProofsCodec ProofsSearch ProofsNav ProofsGen ProofsLids ProofsBlocks.
+
+(* thm:C03_lids_roundtrip — for ALL posting lists (per field, per token; non-empty, strictly
+   increasing, every LID below the end marker 2^32-1), every block capacity > 0, every token tid and
+   every [lo,hi]: reading the token from the sealed form — getLIDsBlockGenerator -> Chunks.Pack ->
+   Chunks.unpack -> lids.Table rebuilt from the registry ext words -> IteratorDesc / IteratorAsc —
+   returns exactly the token's postings inside [lo,hi] (what the active form answers), ascending resp.
+   descending; no panic (chunk-count check, index range), no exhausted fuel. Covers IsContinued,
+   MinTID > MaxTID blocks, HasTIDInNext/PrevBlock, tokens ending exactly at a block end, field ends. *)
+Theorem C03_lids_roundtrip : forall cap fields tid lo hi asc,
+  0 < cap -> input_ok fields -> input_sorted fields ->
+  (tokens_total fields < 4294967295)%N ->
+  (1 <= tid <= tokens_total fields)%N ->
+  read_postings asc cap fields tid lo hi = Ok (expected asc fields tid lo hi).
+Proof. exact lids_roundtrip. Qed.
+Print Assumptions C03_lids_roundtrip.
 
 (* thm:C03_chunks_codec — what Chunks.Pack writes, Chunks.unpack reads back: same chunks, same
    IsLastLID flag, for every chunk list whose LIDs are below the end marker 2^32-1 (no order needed;
@@ -10,6 +26,66 @@ From C03 Require Import Model ProofsCodec.
 Theorem C03_chunks_codec : forall c, chunks_wf c -> unpack (pack c) = c.
 Proof. exact chunks_codec. Qed.
 Print Assumptions C03_chunks_codec.
+
+(* the LID block generator terminates for every capacity > 0 *)
+Theorem C03_lidblocks_total : forall cap fields, 0 < cap -> input_ok fields -> gen_blocks cap fields <> OutOfFuel.
+Proof. exact gen_blocks_total. Qed.
+Print Assumptions C03_lidblocks_total.
+
+(* thm:C03_ids_tables (LID table part) — the table a restart rebuilds from the registry ext words
+   (ext1 = IsContinued, ext2 = MaxTID<<32 | MinTID) equals the table sealing keeps in memory *)
+Theorem C03_lids_tables_equal : forall cap fields bs,
+  0 < cap -> input_ok fields -> (tokens_total fields < 4294967295)%N ->
+  gen_blocks cap fields = Ok bs -> loaded_table bs = table_of bs.
+Proof. exact lids_tables_equal. Qed.
+Print Assumptions C03_lids_tables_equal.
+
+(* thm:C03_tokens_total — the repaired token block generator terminates for every list of fields
+   (any field size, any number of tokens) and each field's blocks are non-empty, contiguous from the
+   field's first TID, cover exactly its tokens, with isStartOfField on the first block only. *)
+Theorem C03_tokens_total : forall fields, exists bss, tok_gen fields = Ok bss /\ tbs_ok 1 fields bss.
+Proof. exact tok_gen_total. Qed.
+Print Assumptions C03_tokens_total.
+
+(* ID blocks (and the registry minima derived from them): the sorted ID list is cut into blocks that
+   are all full except the last — what `lid / IDsPerBlock` relies on — none empty, nothing lost. *)
+Theorem C03_ids_blocks : forall size (ids : list sid), 1 <= size ->
+  exists bs, id_blocks size ids = Some bs /\ concat bs = ids
+             /\ Forall (fun b => 1 <= length b <= size) bs
+             /\ Forall (fun b => length b = size) (removelast bs).
+Proof. exact (@id_blocks_ok sid). Qed.
+Print Assumptions C03_ids_blocks.
+
+(* ---------------------------------------------------------------- non-vacuity and refutations *)
+
+(* hypotheses of C03_lids_roundtrip are satisfiable, on a layout with a token spanning three blocks
+   (middle block has MinTID > MaxTID) and a token ending exactly at a block end *)
+Example C03_lids_roundtrip_nonvacuous :
+  let fields := [[[1;2;3;4;5;6;7]%N; [2;9]%N]; [[5]%N]] in
+  input_ok fields /\ input_sorted fields /\ (tokens_total fields < 4294967295)%N
+  /\ gen_blocks 3 fields
+     = Ok [mkBlock 1 1 false (mkChunks [[1;2;3]%N] false);
+           mkBlock 2 1 true (mkChunks [[4;5;6]%N] false);
+           mkBlock 2 2 true (mkChunks [[7]%N; [2;9]%N] true);
+           mkBlock 3 3 false (mkChunks [[5]%N] true)]
+  /\ read_postings true 3 fields 1 3 6 = Ok [6;5;4;3]%N.
+Proof.
+  cbv zeta. split; [|split; [|split; [|split]]].
+  - repeat constructor; try congruence; unfold lid_ok; reflexivity.
+  - unfold input_sorted, sorted. repeat constructor.
+  - reflexivity.
+  - vm_compute. reflexivity.
+  - vm_compute. reflexivity.
+Qed.
+
+(* "non-empty" is needed: a token without postings gets no chunk and the reader's chunk-count check fires *)
+Example C03_lids_empty_posting_breaks :
+  read_postings false 3 [[[1;2]%N; []; [5]%N]] 3 0 10 = Panic.
+Proof. vm_compute. reflexivity. Qed.
+
+(* capacity 0 never terminates (the model runs out of fuel) *)
+Example C03_lids_cap0_diverges : gen_blocks 0 [[[1]%N]] = OutOfFuel.
+Proof. vm_compute. reflexivity. Qed.
 
 Example C03_chunks_codec_nonvacuous :
   chunks_wf (mkChunks [[4294967294%N]; [3%N]] false)
@@ -20,3 +96,15 @@ Proof.
   - repeat constructor; unfold lid_ok; reflexivity.
   - intros _. split; congruence.
 Qed.
+
+(* the bound is needed: LID 2^32-1 is read as an end marker *)
+Example C03_chunks_codec_needs_bound :
+  unpack (pack (mkChunks [[4294967295%N]] true)) <> mkChunks [[4294967295%N]] true.
+Proof. exact chunks_codec_needs_bound. Qed.
+
+(* thm:C03_tokenblocks_refuted for the code BEFORE fix cf53e44 (kept as tok_field_v0): one token of
+   20000 bytes -> blocksCount 2 -> blockSize 0 -> an empty block -> tokens[-1] panics while sealing *)
+Example C03_tokenblocks_v0_refuted : tok_gen_v0 [(20000%N, 1%N)] = Panic.
+Proof. exact tokenblocks_v0_refuted. Qed.
+Example C03_tokenblocks_fixed_witness : tok_gen [(20000%N, 1%N)] = Ok [[(1%N, 1%N, true)]].
+Proof. exact tokenblocks_fixed_witness. Qed.
